@@ -3,8 +3,8 @@ From Coq Require Import List ZArith.
 From GV Require Import Lib.Tree Model.DrawSet Model.Mcmc.
 Import ListNotations.
 
-Theorem C12_default_limits : forall nodes tg es0,
-  c_slimit (mk_cfg nodes tg es0 None None) = 25 /\
-  c_climit (mk_cfg nodes tg es0 None None) = 10 * length es0.
+Theorem C12_default_limits : forall f nodes tg es0,
+  c_slimit (mk_cfg f nodes tg es0 None None) = 25 /\
+  c_climit (mk_cfg f nodes tg es0 None None) = 10 * length es0.
 Proof. intros. split; reflexivity. Qed.
 Print Assumptions C12_default_limits.
